@@ -314,7 +314,7 @@ def _columns_move_rows_checked(inner):
 
 
 @contextlib.contextmanager
-def applied(fixes):
+def patches_applied(fixes):
     """the proposed patches that cannot be carried by a subclass the harness builds: Columns is also what Button /
     CheckBox / GridFlow / LineBox are made of, so `columns-move` replaces the method on the class while a case is
     re-run for attribution (never during the campaign proper: Harness.fixes is empty there)"""
@@ -329,7 +329,7 @@ def applied(fixes):
         urwid.Columns.move_cursor_to_coords = old
 
 
-# name -> (kinds of node whose presence makes the patch a candidate, subclass the harness builds instead | None: `applied`)
+# name -> (kinds of node whose presence makes the patch a candidate, subclass the harness builds instead | None: `patches_applied`)
 FIXES = {
     "overlay-cursor": (("over",), FixedOverlay),
     "filler-move": (("filler",), FixedFiller),
@@ -1310,7 +1310,7 @@ class Harness:
             return
 
         def recheck(names):
-            with applied(self.fixes | names):
+            with patches_applied(self.fixes | names):
                 v2, _label = self.move_violation(self.fixes | names, *args)
             return v2 is None or not _same(v2, v)
 
@@ -1328,7 +1328,7 @@ class Harness:
         drawn on the requested row (Edit: the cursor itself is on that row).  Which column the cursor is in is not
         the statement's (Columns / Padding snap to the nearest selectable column on purpose).
         -> (Violation | None, label for the statistics)"""
-        with applied(fixes):
+        with patches_applied(fixes):
             root, reg = self.fresh(fixes=fixes)
             what = f"move_cursor_to_coords({self.size}, {c}, {r})"
             try:
@@ -1384,7 +1384,7 @@ class Harness:
         with warnings.catch_warnings(record=True) as wlist:
             warnings.simplefilter("always")
             try:
-                with applied(self.fixes):
+                with patches_applied(self.fixes):
                     self._run()
             except Skip:
                 pass
@@ -1417,7 +1417,7 @@ class Harness:
         for v in found:
 
             def recheck(names, v=v):
-                with applied(self.fixes | names):
+                with patches_applied(self.fixes | names):
                     return not any(_same(x, v) for x in self.initial(self.fixes | names)[6])
 
             try:
